@@ -208,6 +208,9 @@ class RDSystem :
     def space(self, v) :
         if type(v) not in [RDGridSpace, RDGraphSpace] :
             raise ValueError("space must be a :py:class:`RDGridSpace` or :py:class:`RDGraphSpace`.")
+        for e in v.get_cell_env_array() :
+            if int(e) >= self.network.nenvironments() :
+                raise ValueError("cell environment index "+str(int(e))+" is beyond the network's list of "+str(self.network.nenvironments())+" environments.")
         self._space = v
     
     @property
